@@ -10,7 +10,7 @@ import numpy as np
 
 from vcgen.harness import Contract, Instance, define, eq, ge, holds
 
-from .gaussians import LAYOUTS, BlockL, DenseL, IsoL, cov, law, _names, _scalings
+from .gaussians import LAYOUTS, BlockL, DenseL, IsoL, cov, law, _names, _scalings, scaling_shape_clauses
 
 
 def _fam(tier, L):
@@ -143,7 +143,7 @@ def make_contracts(L):
         if L is BlockL:
             eye = jnp.broadcast_to(eye, A.shape)
         return [eq("linop", A, eye), eq("offset", b, 0.0), eq("cov", Q, 0.0),
-                eq("unit_to_latent", res.to_latent, 1.0), eq("unit_to_observed", res.to_observed, 1.0)]
+                eq("unit_to_latent", res.to_latent, 1.0), eq("unit_to_observed", res.to_observed, 1.0)] + scaling_shape_clauses(res)
 
     C["identity_conditional"] = Contract(
         name=f"{pre}.identity_conditional", module=L.module, qualname=f"{L.normal}.identity_conditional",
@@ -174,7 +174,7 @@ def make_contracts(L):
             E = jnp.zeros((d, 1, n)).at[:, 0, i].set(1.0)
             Qs = (std * std).reshape(d, 1, 1)
         return [eq("selector", A, E), eq("offset", b, 0.0), eq("noise_cov", Q, Qs),
-                eq("unit_to_latent", res.to_latent, 1.0), eq("unit_to_observed", res.to_observed, 1.0)]
+                eq("unit_to_latent", res.to_latent, 1.0), eq("unit_to_observed", res.to_observed, 1.0)] + scaling_shape_clauses(res)
 
     def deriv_inst(tier):
         out = []
